@@ -168,6 +168,30 @@ def classify_rt(a, o):
     return o.get("err", "?")
 
 
+# ------------------------------------------------------------------ spec level: the richer primitive types
+import c04_rich as R  # noqa: E402
+
+
+def gen_e2e(rng, tier):
+    for i in range(n_cases(tier, 260, 6000)):
+        yield {"seed": rng.randrange(10**9), "factory": rng.choice(["dict", "filter_none"]), "doc": "list" if i % 4 == 0 else "single"}
+
+
+def impl_e2e(a):
+    return {"ok": R.run(a)}
+
+
+def spec_e2e(a):
+    """the property itself: the encoded form dumps with the stdlib encoder and both routes give the object back;
+    instances inside a listed finding are left unspecified"""
+    return R.expected(a)
+
+
+def classify_e2e(a, o):
+    r = o.get("ok", {})
+    return "faithful" if r == R.EXPECTED else "not-faithful"
+
+
 CORRS = [
     Corr("dict.enc", gen_enc, impl_enc, compare=cmp_skip,
          describe="DictEncoder.encode / JsonSerializer.render (+json.loads) vs model, both factories; the harness rejects non JSON-native outputs"),
@@ -176,6 +200,10 @@ CORRS = [
                   "explicit / list / detected target"),
     Corr("dict.roundtrip", gen_rt, impl_rt, compare=cmp_member, classify=classify_rt,
          describe="real encode+decode (dict and JSON text routes) vs model encode+decode"),
+    Corr("c04.e2e", gen_e2e, impl_e2e, spec=spec_e2e, classify=classify_e2e,
+         describe="spec-level: seeded universes over float / Decimal / Union[int,float] / Union[int,str] / Union[float,str] / bytes base16+base64 / "
+                  "XmlDate / XmlDateTime / XmlDuration / str and int enums (scalar, Optional, List, nested models, list documents), both factories, "
+                  "DictEncoder/DictDecoder and JsonSerializer/JsonParser; expected: json.dumps works and both routes return the object (NaN ~ NaN)"),
 ]
 
 TRUSTED = [
@@ -200,6 +228,8 @@ LEVEL_TEXT = (
     "wrapper, inheritance, unknown keys and wrong shapes."
 )
 LEVEL_NOTE = (
+    "float, Decimal, unions of primitives, bytes, XmlDate/XmlDateTime/XmlDuration and enums are not in the Lean layer: they are "
+    "covered by the spec-level op c04.e2e and the oracle rich_types_roundtrip on the real code only (harness/c04_rich.py). "
     "Outside the proved fragment (executable model + correspondence only): tokens, QName primitives, attributes maps, wildcards, "
     "compound fields, unions, detect-type (clazz=None), ignore_default_attributes. Untyped (anyType) primitive fields are outside the property."
 )
@@ -325,17 +355,50 @@ def finding_wrapper():
     return (k, v) == ("err", "ParserError"), f"{k} {v}"
 
 
-def finding_compound():
-    k, v, _ = _rt(W.COMP_DESC, W.COMP_VALUE)
-    return k == "ok" and v == W.COMP_CHANGED, f"{k} {json.dumps(v)[:200]}"
-
-
 def finding_derived():
     k, v, _ = _rt(W.DER_DESC, W.DER_VALUE)
     return (k, v) == ("err", "ParserError"), f"{k} {v}"
 
 
+def oracle_rich_check(a):
+    o = R.run(a)
+    bad = {k: v for k, v in o.items() if v != R.EXPECTED[k]}
+    if not bad:
+        return None
+    return f"{json.dumps(bad)[:600]} on {json.dumps(R.show(a), ensure_ascii=False)[:900]}"
+
+
+def oracle_rich_gen(rng, tier):
+    for i in range(n_cases(tier, 1500, 20000)):
+        yield {"seed": rng.randrange(10**9), "factory": rng.choice(["dict", "filter_none"]), "doc": "list" if i % 4 == 0 else "single"}
+
+
+def covered_rich(a, msg):
+    r = R.expected(a)
+    return r.get("unspecified")
+
+
+def finding_union_str():
+    """`U(a="5")` with `a: Optional[Union[int, str]]` -> {"a": "5"} -> U(a=5)"""
+    from dataclasses import dataclass, field
+    from typing import List, Optional, Union
+
+    from xsdata.formats.dataclass.parsers import DictDecoder
+    from xsdata.formats.dataclass.serializers import DictEncoder
+
+    @dataclass
+    class U:
+        a: Optional[Union[int, str]] = field(default=None, metadata={"type": "Element"})
+        b: List[Union[float, str]] = field(default_factory=list, metadata={"type": "Element"})
+
+    o = U(a="5", b=["1e5", "x"])
+    d = DictEncoder().encode(o)
+    r = DictDecoder().decode(d, U)
+    return d == {"a": "5", "b": ["1e5", "x"]} and r.a == 5 and type(r.a) is int and r.b == [100000.0, "x"], f"{d} -> {r}"
+
+
 FINDINGS = {
+    "C04-union-str-as-number": finding_union_str,
     "C04-subclass-ambiguity": finding_subclass,
     "C04-filter-none-anyelement": finding_filter_none_any,
     "C04-wrapper-local-names": finding_wrapper,
@@ -344,4 +407,5 @@ FINDINGS = {
 
 ORACLES = [
     Oracle("dict_json_roundtrip", oracle_gen, oracle_check, covered=covered, from_ops=("dict.roundtrip", "dict.enc"), adapt=oracle_adapt),
+    Oracle("rich_types_roundtrip", oracle_rich_gen, oracle_rich_check, covered=covered_rich, from_ops=("c04.e2e",)),
 ]
